@@ -1,0 +1,28 @@
+//go:build verif
+// +build verif
+
+package plumbing
+
+import (
+	"time"
+
+	"gopkg.in/src-d/go-git.v4/plumbing"
+)
+
+// VerifPreviousTick returns the branch-local previousTick (read-only).
+func (ticks *TicksSinceStart) VerifPreviousTick() int {
+	return ticks.previousTick
+}
+
+// VerifTick0 returns the shared start of tick 0; ok is false before Initialize (read-only).
+func (ticks *TicksSinceStart) VerifTick0() (t time.Time, ok bool) {
+	if ticks.tick0 == nil {
+		return time.Time{}, false
+	}
+	return *ticks.tick0, true
+}
+
+// VerifCommits returns the shared tick -> hashes registry itself (callers must not modify it).
+func (ticks *TicksSinceStart) VerifCommits() map[int][]plumbing.Hash {
+	return ticks.commits
+}
